@@ -78,8 +78,10 @@ func (sess *hopSession) checkIntent(intent authgrants.Intent, principalCert *cer
 // checks if the session has an auth grant to perform cmd
 func (sess *hopSession) checkCmd(cmd string, shell bool) (sessID, error) {
 	logrus.Info("target: received request to perform: ", cmd)
+	now := thunks.TimeNow()
 	for i, ag := range sess.authorizedActions {
-		if thunks.TimeNow().Before(ag.ExpTime) {
+		// a grant can be used from its start time until just before it expires
+		if !now.Before(ag.StartTime) && now.Before(ag.ExpTime) {
 			if !shell && ag.GrantType == authgrants.Command {
 				if ag.AssociatedData.CommandGrantData.Cmd == cmd {
 					// remove from authorized actions and return
